@@ -1,7 +1,7 @@
 (* C01 -- Encoded messages are the exact RFC 7252 wire image and decode back unchanged.
    Only statements; every proof is an [exact] of a lemma from proofs/. *)
 From CoapV Require Import Base Header Packet WireSpec Encode Decode PacketOps Suite01
-  proofs.PWire proofs.PEnc proofs.PDec proofs.P01 proofs.P01b.
+  proofs.PWire proofs.PEnc proofs.PDec proofs.P01 proofs.P01b proofs.P01c.
 
 (* every packet state the API can hold (pkt_wf: header byte consistent with the token,
    token <= 8 bytes, ascending option map, values <= 65804 bytes) serialises to exactly
@@ -45,6 +45,12 @@ Theorem C01_api_denotes_spec : forall ops p, ops_wf ops = true -> run_ops packet
   abs p = amsg_of_smsg (spec_run ops).
 Proof. exact api_denotes_spec. Qed.
 Print Assumptions C01_api_denotes_spec.
+
+(* the model passes the suite-10 oracle on EVERY input of the suite (every call sequence the reader can produce,
+   lenient decoder): state = specified message, bytes = its wire image, decoded fields = that message *)
+Theorem C01_model_passes_oracle : forall s ops, rd_case10 s = Some (lenient, ops) -> verdict10 s (run10 s) = true.
+Proof. exact model_passes_oracle10. Qed.
+Print Assumptions C01_model_passes_oracle.
 
 (* non-vacuity: No-Response (258) as first option, a 300-byte value, version 2 *)
 Example C01_example :
